@@ -93,8 +93,9 @@ def check_c16(prog, rep, tier, cfg):
     c16j(prog, rep)
     c16l(prog, rep)
     # C16.k — every source file found under a directory is formatted like the same content from stdin: the walk drops an entry only
-    # because it is not a formattable file (shared with C18.f / C18.h)
-    c18f(prog, AliasReport(rep, [("C18.f", r"^dropping-adaptor|^floor:reviewed dropping", "C16.k"), ("C18.h", r".", "C16.k")]))
+    # because it is not a formattable file, and the list of files is shortened only by an entry that names a file already in it
+    # (shared with C18.f / C18.h)
+    c18f(prog, AliasReport(rep, [("C18.f", r"^dropping-adaptor|^floor:reviewed dropping|^path-lists-only-grow", "C16.k"), ("C18.h", r".", "C16.k")]))
 
 
 def partial_writes(prog, crates=("pasfmt",)):
@@ -864,6 +865,7 @@ def check_c17(prog, rep, tier, cfg):
     c17c(prog, rep)
     c17d(prog, rep)
     c17g(prog, rep)
+    c17h(prog, rep)
     # C17.e — "the bytes written equal BOM + encode(..)": what is left in the file is exactly what write_file produced — rewritten from
     # offset 0 and cut to the returned length on every success path, whatever the lengths of the old and new text (shared with C16.b)
     c16b(prog, rep, "C17.e")
@@ -1093,6 +1095,57 @@ def c17g(prog, rep):
               "cut is written as U+FFFD and the file is rewritten without any error" % sorted(set(bad))[:3], where="%s:%d" % (b.file, b.line), instance={"calls": sorted(set(bad))[:5]})
     ext = [c for x in fam for c in x.calls() if (c.callee or "").split("::")[-1] in ("extend", "flat_map", "push", "extend_from_slice")]
     rep.floor(R, "building operations of the UTF-16 encoder", len(ext), 1)
+
+
+TEXT_TO_BYTES = ("as_bytes", "into_bytes", "bytes", "as_bytes_mut", "into_boxed_bytes", "to_vec", "to_owned", "as_ptr")
+
+
+def c17h(prog, rep):
+    """C17.h — text reaches an output only through the encoder.  Every buffer handed to a byte sink (`Write::write_all` / `write`) in the
+    orchestrator is the Ok payload of `FileFormatter::encode`, or a byte buffer the function was given (the BOM that was read) — on no
+    path the bytes of a text (`str::as_bytes`, `String::into_bytes` ..): those are the text's UTF-8 bytes, which for a UTF-16 or
+    code-page file (or a file with a BOM) is not the encoding it was read in.  A byte-buffer parameter is followed one level up: what
+    the callers pass is a `bom` they hold or `None`."""
+    R = "C17.h"
+    sinks = []
+    for k, b in prog.bodies.items():
+        if not b.crate.startswith("pasfmt_orchestrator") or "::tests::" in b.npath or "::test" in b.npath.split("FileFormatter")[0]:
+            continue
+        if b.npath.startswith(FF + "encode"):
+            continue
+        for c in b.calls():
+            if c.callee in ("std::io::Write::write_all", "std::io::Write::write") and len(c.args) >= 2:
+                sinks.append(c)
+    n_ok = 0
+    for c in sinks:
+        b = c.body
+        txt = canon(b, c.args[1])
+        conv = [t for t in TEXT_TO_BYTES if re.search(r"(^|[^\w])%s\(" % t, txt)]
+        from_encode = "encode(" in txt and not conv
+        m = re.match(r"^(?:deref\()*arg(\d+)", txt)
+        from_param = False
+        if m and not conv and not from_encode:
+            ty = b.locals[int(m.group(1))]["ty"]
+            from_param = "[u8]" in ty and "str" not in ty
+        ok = from_encode or from_param
+        if ok:
+            n_ok += 1
+        rep.check(ok, R, "sink:%s:%s" % (short(b.npath), txt[:60]),
+                  "%s hands %s to an output stream: bytes that are not the result of encode() with the file's encoding (the UTF-8 bytes of a text are written as they are: no BOM, "
+                  "not the encoding the input was read in)" % (short(b.npath), txt[:80]), where=c.where(),
+                  instance={"body": short(b.npath), "buffer": txt[:80], "origin": "encode()" if from_encode else "byte-buffer parameter" if from_param else "?"})
+        if from_param:
+            # one level up: what is passed for that parameter
+            idx = int(m.group(1)) - 1
+            for cc in prog.who_calls(b.npath):
+                if not cc.body.crate.startswith("pasfmt_orchestrator") or idx >= len(cc.args):
+                    continue
+                t2 = canon(cc.body, cc.args[idx])
+                good = not [t for t in TEXT_TO_BYTES if re.search(r"(^|[^\w])%s\(" % t, t2)]
+                rep.check(good, R, "bom-argument:%s:%s" % (short(cc.body.npath), t2[:50]),
+                          "%s passes %s as the byte-order mark to write: the bytes of a text" % (short(cc.body.npath), t2[:60]), where=cc.where(),
+                          instance={"caller": short(cc.body.npath), "passes": t2[:60]})
+    rep.floor(R, "byte sinks fed by encode() or a given byte buffer", n_ok, 2)
 
 
 def c17d(prog, rep):
